@@ -110,14 +110,17 @@ ENUM9 = [["set", "a", 1], ["set", "a", 2], ["set", "b", "{{a}}x"], ["store"], ["
 ENUM5 = [["set", "a", 1], ["set", "b", "{{a}}x"], ["store"], ["ucfs"],
          ["mkfn", {"filename": "{{b}}", "dirname": "{{a}}"}]]
 
-KEYS = ["a", "b", "c", "d.x", "d.y", "e.f.g"]
+KEYS = ["a", "b", "c", "d.x", "d.y", "e.f.g", "a", "b", "r"]   # "r" is also a run-time key
 CONSTS = [1, 2, "s", "t", True, 0, "", 3.5]
 FORMATS = ["{{a}}", "{{b}}_{{a}}", "p{{c}}", "{{d.x}}", "{{d.y}}{{a}}", "{{e.f.g}}", "{{d}}",
            "{{a}}{{a}}", "{{c}}-{{b}}"]
 DICTS = [["d", {"x": 5, "z": {"w": 1}}], ["e", {"f": {"g": 7}}], ["e.f", {"g": 8, "h": 9}]]
-MK_TEMPLATES = ["{{a}}", "f_{{b}}", "{{d.x}}", "{{a}}_{{c}}", "plain", "{{e.f.g}}", "{{r}}{{a}}"]
-WRITE_TEMPLATES = ["w_{{a}}", "out/{{b}}/{{a}}", "plain", "w{{d.x}}", "{{c}}", "{{e.f.g}}_{{a}}"]
-CACHE_TEMPLATES = ["c_@_{{a}}.pkl", "c_@_{{b}}{{d.y}}.pkl", "c_@.pkl", "c_@_{{c}}.pkl"]
+MK_TEMPLATES = ["{{a}}", "f_{{b}}", "{{d.x}}", "{{a}}_{{c}}", "plain", "{{e.f.g}}", "{{r}}{{a}}",
+                "{{d}}"]
+WRITE_TEMPLATES = ["w_{{a}}", "out/{{b}}/{{a}}", "plain", "w{{d.x}}", "{{c}}", "{{e.f.g}}_{{a}}",
+                   "w{{d}}", "w{{e.f}}"]
+CACHE_TEMPLATES = ["c_@_{{a}}.pkl", "c_@_{{b}}{{d.y}}.pkl", "c_@.pkl", "c_@_{{c}}.pkl",
+                   "c_@_{{d}}.pkl", "c_@_{{e.f}}.pkl"]
 STATIC_TOP = {"a", "b", "c", "d", "e", "zz"}
 
 
